@@ -30,6 +30,11 @@ type Client struct {
 	// automatically (the script sends the PUBREL later)
 	HoldRel map[uint16]bool
 
+	// partial: the client has written only the first bytes of a packet; its automatic
+	// acknowledgements wait until the packet is complete (a client does not interleave its own packets)
+	partial  bool
+	deferred [][]byte
+
 	buf    []byte
 	Rx     []Packet // every packet received, in order
 	nextID uint16
@@ -44,7 +49,7 @@ func (cl *Cluster) NewClient(name string) *Client {
 	// an answer (PINGREQ) right then, see Conn.onPartial
 	c.Conn.OnPartialWrite(func() {
 		if c.Accepted {
-			c.Send(EncPingReq())
+			c.sendAuto(EncPingReq())
 		}
 	})
 	return c
@@ -59,6 +64,24 @@ func (c *Client) AttachTo(n *Node) {
 
 // Send writes raw bytes.
 func (c *Client) Send(b []byte) { c.Conn.ClientWrite(b) }
+
+// BeginPartial / EndPartial bracket a packet that the client writes in two pieces.
+func (c *Client) BeginPartial() { c.partial = true }
+func (c *Client) EndPartial() {
+	c.partial = false
+	for _, b := range c.deferred {
+		c.Send(b)
+	}
+	c.deferred = nil
+}
+
+func (c *Client) sendAuto(b []byte) {
+	if c.partial {
+		c.deferred = append(c.deferred, b)
+		return
+	}
+	c.Send(b)
+}
 
 // NextID hands out client-side packet identifiers 1,2,3,…
 func (c *Client) NextID() uint16 {
@@ -108,18 +131,18 @@ func (c *Client) Pump() bool {
 				break
 			}
 			if p.QoS == 1 {
-				c.Send(EncAck(PUBACK, p.ID))
+				c.sendAuto(EncAck(PUBACK, p.ID))
 			} else if p.QoS == 2 {
-				c.Send(EncAck(PUBREC, p.ID))
+				c.sendAuto(EncAck(PUBREC, p.ID))
 			}
 		case PUBREL:
 			if c.NoDeliveryAck {
 				break
 			}
-			c.Send(EncAck(PUBCOMP, p.ID))
+			c.sendAuto(EncAck(PUBCOMP, p.ID))
 		case PUBREC:
 			if !c.HoldRel[p.ID] {
-				c.Send(EncAck(PUBREL, p.ID))
+				c.sendAuto(EncAck(PUBREL, p.ID))
 			}
 		}
 	}
